@@ -38,6 +38,9 @@ func codeFor(ty an.Type, cache gen.Cache) []gen.Declaration {
 	case *an.Map:
 		return codeForMap(ty, cache)
 	case *an.Array:
+		if isBase64(ty) {
+			return []gen.Declaration{{ID: functionName(ty), Content: fmt.Sprintf(vBytes, functionName(ty))}}
+		}
 		return codeForArray(ty, cache)
 	case *an.Struct:
 		return codeForStruct(ty, cache)
@@ -84,6 +87,9 @@ func typeID(ty an.Type) string {
 	case *an.Time:
 		return "string" // saved as ISO string
 	case *an.Array:
+		if isBase64(ty) {
+			return "bytes"
+		}
 		as := "array_"
 		if ty.Len >= 0 {
 			as += fmt.Sprintf("%d_", ty.Len)
@@ -201,6 +207,28 @@ func codeForEnum(ty *an.Enum) gen.Declaration {
 	s.Content = fmt.Sprintf(vEnum, functionName(ty), nameFromKind(kind), typeCast, enumTuple(ty), typeID(ty))
 	return s
 }
+
+// isBase64 reports whether encoding/json writes `ty` as a base64 string :
+// this is the case for slices (not arrays) of bytes
+func isBase64(ty *an.Array) bool {
+	if ty.Len >= 0 {
+		return false
+	}
+	basic, ok := ty.Elem.Type().Underlying().(*types.Basic)
+	return ok && basic.Kind() == types.Uint8
+}
+
+// a nil slice is written as null
+const vBytes = `
+	CREATE OR REPLACE FUNCTION %s (data jsonb)
+		RETURNS boolean
+		AS $$
+	BEGIN
+		RETURN jsonb_typeof(data) = 'null' OR jsonb_typeof(data) = 'string';
+	END;
+	$$
+	LANGUAGE 'plpgsql'
+	IMMUTABLE;`
 
 const vArray = `
 	CREATE OR REPLACE FUNCTION %s (data jsonb)
